@@ -139,7 +139,12 @@ class Cluster:
                 self.trace.log("cmd_fault", exe=exe, k=n, kind=f.kind)
                 self.cmd_log.append((exe, args, f.kind))
                 if f.kind == "F1":
-                    return 1, "", f"{exe}: error: simulated failure\n"
+                    # what a busy or unreachable controller really prints (the wording differs from call to call)
+                    texts = {"slurm": ["simulated failure", "Socket timed out on send/recv operation",
+                                       "Unable to contact slurm controller (connect failure)"],
+                             "sge": ["simulated failure", "commlib error: got select error (Connection refused)"],
+                             "lsf": ["simulated failure", "Failed in an LSF library call: LIM is down; try later"]}[self.flavour]
+                    return 1, "", f"{exe}: error: {texts[n % len(texts)]}\n"
                 if f.kind == "F2":
                     return 0, "", f"{exe}: error: Invalid job id specified\n"
                 if f.kind == "F4":  # fails silently: non-zero exit, nothing on stderr
